@@ -49,18 +49,28 @@ def _shape(shape):
 
 
 def _generic_alloc(shape, fill):
-    """np.zeros((N,k)) / np.zeros((N,)) with N the symbolic row count of a table -> per-row constant array"""
+    """np.zeros((N,k)) / np.zeros((N,)) with N the symbolic row count of a table -> per-row constant array;
+    any other symbolic shape -> generic-voxel array (voxels.VArr)"""
     from .frames import space_for_count
+    from .voxels import VArr
+    if isinstance(shape, _np.ndarray):
+        shape = list(shape)
     if isinstance(shape, SV):
-        sp = space_for_count(shape)
-        return GVec(fill, sp)
-    if isinstance(shape, (tuple, list)) and shape and isinstance(shape[0], SV):
-        sp = space_for_count(shape[0])
-        if len(shape) == 1:
+        try:
+            sp = space_for_count(shape)
             return GVec(fill, sp)
-        if len(shape) == 2 and not isinstance(shape[1], SV):
-            return RowArr([fill] * int(shape[1]), sp)
-        raise Unsupported("allocation with symbolic shape")
+        except Unsupported:
+            return VArr([shape], fill)
+    if isinstance(shape, (tuple, list)) and shape and any(isinstance(s, SV) for s in shape):
+        if isinstance(shape[0], SV) and len(shape) <= 2 and not any(isinstance(s, SV) for s in shape[1:]):
+            try:
+                sp = space_for_count(shape[0])
+                if len(shape) == 1:
+                    return GVec(fill, sp)
+                return RowArr([fill] * int(shape[1]), sp)
+            except Unsupported:
+                pass
+        return VArr(list(shape), fill)
     return None
 
 
@@ -200,6 +210,8 @@ def _elementwise(fn_sym, fn_np):
     def f(x, *a, **k):
         if isinstance(x, (SV, SB)):
             return fn_sym(x)
+        if type(x).__name__ == "VArr":
+            return x._new(fn_sym(x.elem) if isinstance(x.elem, (SV, SB)) else fn_np(x.elem))
         if isinstance(x, GVec):
             return x._new(fn_sym(x.val) if isinstance(x.val, (SV, SB)) else fn_np(x.val))
         if isinstance(x, RowArr):
@@ -282,6 +294,8 @@ class NP:
     def array(self, x, dtype=None, ndmin=0, **k):
         if isinstance(x, (RowArr, GVec)):
             return x
+        if type(x).__name__ == "VArr":
+            return x.copy() if k.get("copy", True) else x
         if isinstance(x, GFrame):
             return x.to_numpy()
         if _has_sym(x):
@@ -316,6 +330,21 @@ class NP:
             raise Unsupported("np.arange with symbolic bounds")
         return _np.arange(*a, **k)
     def tile(self, x, reps):
+        if type(x).__name__ == "VArr":
+            reps = tuple(reps) if isinstance(reps, (tuple, list)) else (reps,)
+            if len(reps) != x.ndim:
+                raise Unsupported("tile with a different rank")
+            shape = []
+            for s, r in zip(x.shape_, reps):
+                if not isinstance(r, SV) and r == 1:
+                    shape.append(s)
+                elif not isinstance(s, SV) and s == 1:
+                    shape.append(r)
+                else:
+                    raise Unsupported("tile of a non-singleton axis")
+            from .voxels import VArr, subst_index
+            sub = {a: z3.IntVal(0) for a, (s, r) in enumerate(zip(x.shape_, reps)) if not (not isinstance(r, SV) and r == 1)}
+            return VArr(shape, subst_index(x.elem, sub), x.dtype_)
         if isinstance(reps, tuple) and len(reps) == 2 and reps[1] == 1 and isinstance(reps[0], SV):
             a = obj(x) if not isinstance(x, _np.ndarray) else x
             if a.ndim == 1:
@@ -351,6 +380,13 @@ class NP:
             return out
         return _np.arctan2(y, x)
     def where(self, c, *ab):
+        if ab and (type(c).__name__ == "VArr" or any(type(v).__name__ == "VArr" for v in ab)):
+            from .voxels import VArr, _ite
+            g = c if type(c).__name__ == "VArr" else [v for v in ab if type(v).__name__ == "VArr"][0]
+            shape, _, ce = g._coerce(c) if g is not c else (g.shape_, None, c.elem)
+            _, _, ae = g._coerce(ab[0]) if ab[0] is not g else (None, None, g.elem)
+            _, _, be = g._coerce(ab[1]) if ab[1] is not g else (None, None, g.elem)
+            return VArr(shape, _ite(ce, ae, be))
         if not ab and hasattr(c, "where"):
             return c.where()
         if not ab:
@@ -373,6 +409,31 @@ class NP:
                 out[i] = ite(ca[i], aa[i], ba[i]) if isinstance(ca[i], SB) else (aa[i] if ca[i] else ba[i])
             return out
         return _np.where(c, a, b)
+    mgrid = __import__("vfw.models.voxels", fromlist=["MGrid"]).MGrid()
+
+    def amin(self, x, **k):
+        if _has_sym(x):
+            a = obj(x).ravel()
+            r = a[0]
+            for v in a[1:]:
+                r = sym.smin(r, v)
+            return r
+        return _np.amin(x, **k)
+    def amax(self, x, **k):
+        if _has_sym(x):
+            a = obj(x).ravel()
+            r = a[0]
+            for v in a[1:]:
+                r = sym.smax(r, v)
+            return r
+        return _np.amax(x, **k)
+    min = amin
+    max = amax
+    def any(self, x, **k):
+        if x is None: return False
+        if _has_sym(x): raise Unsupported("np.any on symbolic data")
+        return _np.any(x, **k)
+
     def clip(self, x, lo, hi):
         def one(v):
             r = v
@@ -385,6 +446,9 @@ class NP:
     def maximum(self, a, b):
         return self._binary_elem(a, b, sym.smax, _np.maximum)
     def _binary_elem(self, a, b, fs, fn):
+        if type(a).__name__ == "VArr" or type(b).__name__ == "VArr":
+            g, o = (a, b) if type(a).__name__ == "VArr" else (b, a)
+            return g._bin(o, lambda x, y: fs(x, y))
         if isinstance(a, (SV,)) or isinstance(b, SV):
             if not _has_sym([x for x in (a, b) if not isinstance(x, SV)]):
                 if not isinstance(a, _np.ndarray) and not isinstance(b, _np.ndarray):
